@@ -99,25 +99,67 @@ theorem WF_validate (alloc : Bool) (b : LongNameBuilder) (n : List Nat) (h : WF 
     · exact WF_clear alloc b
     · exact h
 
-/-- what `into_buf` hands to the entry: `len` is inside the storage and at most 260 -/
-theorem intoBuf_ok (alloc : Bool) (b : LongNameBuilder) (h : WF alloc b) :
-    (intoBuf alloc b).len ≤ (intoBuf alloc b).units.length ∧ (intoBuf alloc b).len ≤ 260 := by
-  obtain ⟨h1, h2, h3, h4, h5⟩ := h
+theorem WF_len_le (alloc : Bool) (b : LongNameBuilder) (h : WF alloc b) : b.buf.len ≤ b.buf.units.length := by
+  obtain ⟨_, h2, _, _, h5⟩ := h
   have hcap := bufCap_eq
-  unfold intoBuf
-  split
-  · have := stripLen_le b.buf.units
-    cases alloc <;> simp [truncate, LfnBuf.setLen] at h5 ⊢ <;> omega
-  · split
-    · cases alloc <;> simp [clear, LfnBuf.clear, LfnBuf.new]
-    · cases alloc <;> simp at h5 ⊢ <;> omega
+  cases alloc <;> simp at h5 <;> omega
+
+theorem asUnits?_eq (buf : LfnBuf) (h : buf.len ≤ buf.units.length) : buf.asUnits? = some buf.asUnits := by
+  simp [LfnBuf.asUnits?, LfnBuf.asUnits, h]
+
+theorem asUnits_length (buf : LfnBuf) (h : buf.len ≤ buf.units.length) : buf.asUnits.length = buf.len := by
+  simp [LfnBuf.asUnits]; omega
+
+theorem truncate?_eq (alloc : Bool) (b : LongNameBuilder) (h : WF alloc b) :
+    truncate? alloc b = some (truncate alloc b) := by
+  simp [truncate?, truncate, asUnits?_eq _ (WF_len_le alloc b h)]
+
+/-- after `truncate`: the new length is inside the storage and not larger than the old one -/
+theorem truncate_ok (alloc : Bool) (b : LongNameBuilder) (h : WF alloc b) :
+    (truncate alloc b).buf.len ≤ (truncate alloc b).buf.units.length ∧
+    (truncate alloc b).buf.len = stripLen b.buf.asUnits ∧ stripLen b.buf.asUnits ≤ b.buf.len := by
+  have hl := WF_len_le alloc b h
+  have h1 := stripLen_le b.buf.asUnits
+  rw [asUnits_length _ hl] at h1
+  refine ⟨?_, ?_, h1⟩
+  · cases alloc <;> simp [truncate, LfnBuf.setLen] <;> omega
+  · cases alloc <;> simp [truncate, LfnBuf.setLen]
+
+theorem new_asUnits (alloc : Bool) : (LfnBuf.new alloc).asUnits = [] := by
+  cases alloc <;> simp [LfnBuf.new, LfnBuf.asUnits]
+
+theorem new_len (alloc : Bool) : (LfnBuf.new alloc).len = 0 := by
+  cases alloc <;> simp [LfnBuf.new]
+
+/-- what `into_buf` hands to the entry: no bounds check fires, `len` is inside the storage and at most 255 -/
+theorem intoBuf_ok (alloc : Bool) (b : LongNameBuilder) (h : WF alloc b) :
+    intoBuf? alloc b = some (intoBuf alloc b) ∧
+    (intoBuf alloc b).len ≤ (intoBuf alloc b).units.length ∧ (intoBuf alloc b).len ≤ 255 := by
+  obtain ⟨t1, t2, t3⟩ := truncate_ok alloc b h
+  have hl := WF_len_le alloc b h
+  have h4 := h.2.2.2.1
+  unfold intoBuf? intoBuf
+  by_cases i1 : b.index = 1
+  · simp only [i1, if_true, truncate?_eq alloc b h, maxNameLen]
+    refine ⟨trivial, ?_⟩
+    by_cases hgt : (truncate alloc b).buf.len > 255
+    · simp only [hgt, if_true]
+      simp [clear, LfnBuf.clear, new_len]
+    · simp only [hgt, if_false]
+      exact ⟨t1, by omega⟩
+  · simp only [i1, if_false]
+    by_cases i0 : b.index = 0
+    · have := h4 i0
+      simp [i0]; omega
+    · simp [i0, clear, LfnBuf.clear, new_len]
 
 theorem finish?_eq (alloc : Bool) (b : LongNameBuilder) (n : List Nat) (h : WF alloc b) :
-    finish? alloc b n = some (finish alloc b n) ∧ (finish alloc b n).length ≤ 260 := by
-  have := intoBuf_ok alloc _ (WF_validate alloc b n h)
-  unfold finish? finish LfnBuf.asUnits? LfnBuf.asUnits
-  simp only [this.1, if_true, true_and]
-  simp; omega
+    finish? alloc b n = some (finish alloc b n) ∧ (finish alloc b n).length ≤ 255 := by
+  obtain ⟨e1, e2, e3⟩ := intoBuf_ok alloc _ (WF_validate alloc b n h)
+  unfold finish? finish
+  rw [e1]
+  simp only [asUnits?_eq _ e2, true_and]
+  rw [asUnits_length _ e2]; exact e3
 
 /-- no panic site of the directory reader fires: the checked loop returns what the unchecked one computes -/
 theorem readLoop?_eq (alloc sv : Bool) : ∀ (slots : List (List Nat)) (idx bg : Nat) (b : LongNameBuilder),
@@ -145,7 +187,7 @@ theorem readLoop?_eq (alloc sv : Bool) : ∀ (slots : List (List Nat)) (idx bg :
       rw [(finish?_eq alloc b _ hb).1, ih _ _ _ (WF_new alloc)]
 
 theorem readLoop_units_le (alloc sv : Bool) : ∀ (slots : List (List Nat)) (idx bg : Nat) (b : LongNameBuilder),
-    WF alloc b → ∀ e ∈ readLoop alloc sv slots idx bg b, e.units.length ≤ 260 := by
+    WF alloc b → ∀ e ∈ readLoop alloc sv slots idx bg b, e.units.length ≤ 255 := by
   intro slots
   induction slots with
   | nil => intro _ _ _ _ e he; simp [readLoop] at he
